@@ -59,20 +59,20 @@ Definition tinv (s : state) (t : nat) (th : thread) : Prop :=
 
 (** global part *)
 Record ginv (s : state) : Prop := {
-  g_bits : 0 <= jbits s <= 62;
-  g_n : 0 <= jn s < 2 ^ jbits s;
-  g_mask : jmask s = 2 ^ jbits s - 1;
-  g_fit : lenz (thr s) < 2 ^ (63 - jbits s);
-  g_word : word s = nreg s * 2 ^ jbits s + gD s;
-  g_dec : 0 <= gD s <= jn s;
-  g_count : nreg s = npend s + lenz (sq s) + lenz (fheld s) + gU s;
-  g_nofinal : gF s = None -> gU s = 0 /\ (gD s = jn s -> nreg s = 0);
-  g_final : forall f, gF s = Some f ->
+  iv_bits : 0 <= jbits s <= 62;
+  iv_n : 0 <= jn s < 2 ^ jbits s;
+  iv_mask : jmask s = 2 ^ jbits s - 1;
+  iv_fit : lenz (thr s) < 2 ^ (63 - jbits s);
+  iv_word : word s = nreg s * 2 ^ jbits s + gD s;
+  iv_dec : 0 <= gD s <= jn s;
+  iv_count : nreg s = npend s + lenz (sq s) + lenz (fheld s) + gU s;
+  iv_nofinal : gF s = None -> gU s = 0 /\ (gD s = jn s -> nreg s = 0);
+  iv_final : forall f, gF s = Some f ->
             gD s = jn s /\ exists th, get_thread s f = Some th /\ fphase s (main th);
-  g_budget : gD s + ninfl s <= gC s;
-  g_members : forall x, In x (sq s ++ fheld s) ->
+  iv_budget : gD s + ninfl s <= gC s;
+  iv_members : forall x, In x (sq s ++ fheld s) ->
               exists th, get_thread s x = Some th /\ main th = Susp /\ cb th = CbNone;
-  g_nodup : NoDup (sq s ++ fheld s)
+  iv_nodup : NoDup (sq s ++ fheld s)
 }.
 
 Definition Inv (s : state) : Prop :=
@@ -141,16 +141,16 @@ Qed.
 
 Lemma low_is_dec s : ginv s -> Z.land (word s) (jmask s) = gD s.
 Proof.
-  intros G. rewrite (g_word s G), (g_mask s G). apply low_of_pack.
-  - apply (g_bits s G).
-  - pose proof (g_dec s G). pose proof (g_n s G). lia.
+  intros G. rewrite (iv_word s G), (iv_mask s G). apply low_of_pack.
+  - apply (iv_bits s G).
+  - pose proof (iv_dec s G). pose proof (iv_n s G). lia.
 Qed.
 
 Lemma high_is_reg s : ginv s -> Z.shiftr (word s) (jbits s) = nreg s.
 Proof.
-  intros G. rewrite (g_word s G). apply high_of_pack.
-  - apply (g_bits s G).
-  - pose proof (g_dec s G). pose proof (g_n s G). lia.
+  intros G. rewrite (iv_word s G). apply high_of_pack.
+  - apply (iv_bits s G).
+  - pose proof (iv_dec s G). pose proof (iv_n s G). lia.
 Qed.
 
 Lemma nreg_bounds s : 0 <= nreg s <= lenz (thr s).
@@ -159,7 +159,7 @@ Proof. unfold nreg, lenz. apply sumf_bounds. exact regz_bounds. Qed.
 Lemma final_when_below s : ginv s -> gD s <> jn s -> gF s = None.
 Proof.
   intros G H. destruct (gF s) as [f|] eqn:E; [|reflexivity].
-  destruct (g_final s G f E) as (Hd & _). contradiction.
+  destruct (iv_final s G f E) as (Hd & _). contradiction.
 Qed.
 
 Lemma not_susp_cbnone s t th : tinv s t th -> main th <> Susp -> cb th = CbNone.
@@ -203,15 +203,15 @@ Proof.
   assert (EC : gC s' = c') by reflexivity.
   split.
   - constructor.
-    + apply (g_bits s G).
-    + apply (g_n s G).
-    + apply (g_mask s G).
-    + unfold s', with_calls. unf. sred. rewrite upd_length. apply (g_fit s G).
-    + rewrite Ereg. apply (g_word s G).
-    + apply (g_dec s G).
-    + rewrite Ereg, Epend, Eheld. apply (g_count s G).
-    + rewrite Ereg. apply (g_nofinal s G).
-    + intros f Hf. destruct (g_final s G f Hf) as (Hd & thf & Hgf & Hph). split; [exact Hd|].
+    + apply (iv_bits s G).
+    + apply (iv_n s G).
+    + apply (iv_mask s G).
+    + unfold s', with_calls. unf. sred. rewrite upd_length. apply (iv_fit s G).
+    + rewrite Ereg. apply (iv_word s G).
+    + apply (iv_dec s G).
+    + rewrite Ereg, Epend, Eheld. apply (iv_count s G).
+    + rewrite Ereg. apply (iv_nofinal s G).
+    + intros f Hf. destruct (iv_final s G f Hf) as (Hd & thf & Hgf & Hph). split; [exact Hd|].
       destruct (Nat.eq_dec f t) as [e|ne].
       * subst f. exists (set_main th p'). split; [exact Esame|].
         rewrite Hg in Hgf. inversion Hgf; subst thf. sred.
@@ -219,12 +219,12 @@ Proof.
           try contradiction; rewrite Ereg; exact Hph.
       * exists thf. split; [rewrite Eother by exact ne; exact Hgf|].
         apply (fphase_ext s); [exact Ereg | reflexivity | exact Hph].
-    + pose proof (g_budget s G). rewrite EC, Einfl. change (gD s') with (gD s). lia.
+    + pose proof (iv_budget s G). rewrite EC, Einfl. change (gD s') with (gD s). lia.
     + intros x Hx. change (sq s') with (sq s) in Hx. rewrite Eheld in Hx.
-      destruct (g_members s G x Hx) as (thx & Hgx & Hmx & Hcx).
+      destruct (iv_members s G x Hx) as (thx & Hgx & Hmx & Hcx).
       exists thx. split; [|split; assumption].
       rewrite Eother; [exact Hgx|]. intros e. subst x. rewrite Hg in Hgx. inversion Hgx; subst thx. contradiction.
-    + change (sq s') with (sq s). rewrite Eheld. apply (g_nodup s G).
+    + change (sq s') with (sq s). rewrite Eheld. apply (iv_nodup s G).
   - intros u thu Hgu. destruct (Nat.eq_dec u t) as [e|ne].
     + subst u. rewrite Esame in Hgu. inversion Hgu; subst thu.
       apply (tinv_stable s); try reflexivity; auto;
@@ -295,7 +295,7 @@ Proof.
   { apply (not_susp_cbnone s t th (T t th Hg)). rewrite Hm. discriminate. }
   assert (HD : gD s <> jn s). { rewrite <- (low_is_dec s G), Hw. exact Hlow. }
   assert (HF : gF s = None) by (apply final_when_below; assumption).
-  pose proof (g_dec s G) as Hdec. pose proof (g_n s G) as Hn. pose proof (g_bits s G) as Hb.
+  pose proof (iv_dec s G) as Hdec. pose proof (iv_n s G) as Hn. pose proof (iv_bits s G) as Hb.
   assert (Ereg : nreg s' = nreg s + 1).
   { unf. rewrite Et. rewrite (sumf_upd _ _ _ _ _ Hg). unfold regz. sred. rewrite Hreg. lia. }
   assert (Epend : npend s' = npend s + 1).
@@ -317,24 +317,24 @@ Proof.
   - constructor.
     + rewrite Pb. exact Hb.
     + rewrite Pn, Pb. exact Hn.
-    + rewrite Pm, Pb. apply (g_mask s G).
-    + rewrite Elen, Pb. apply (g_fit s G).
-    + rewrite Ew, <- Hw, (g_word s G), Ereg, ED, Pb.
+    + rewrite Pm, Pb. apply (iv_mask s G).
+    + rewrite Elen, Pb. apply (iv_fit s G).
+    + rewrite Ew, <- Hw, (iv_word s G), Ereg, ED, Pb.
       apply reg_no_carry; try lia.
       * apply nreg_bounds.
-      * pose proof (nreg_bounds s') as Hb'. rewrite Ereg, Elen in Hb'. pose proof (g_fit s G). lia.
+      * pose proof (nreg_bounds s') as Hb'. rewrite Ereg, Elen in Hb'. pose proof (iv_fit s G). lia.
     + rewrite ED, Pn. exact Hdec.
-    + rewrite Ereg, Epend, Eq, Eheld, EU. pose proof (g_count s G) as Hc. rewrite Eheld0 in Hc.
+    + rewrite Ereg, Epend, Eq, Eheld, EU. pose proof (iv_count s G) as Hc. rewrite Eheld0 in Hc.
       unfold lenz in *. cbn [length] in *. lia.
-    + intros _. rewrite EU, ED, Pn. split; [apply (g_nofinal s G HF) | intros; contradiction].
+    + intros _. rewrite EU, ED, Pn. split; [apply (iv_nofinal s G HF) | intros; contradiction].
     + intros f Hf. rewrite EF in Hf. discriminate.
-    + rewrite ED, Einfl, EC. apply (g_budget s G).
+    + rewrite ED, Einfl, EC. apply (iv_budget s G).
     + intros x Hx. rewrite Eq, Eheld in Hx. rewrite <- Eheld0 in Hx.
-      destruct (g_members s G x Hx) as (thx & Hgx & Hmx & Hcx).
+      destruct (iv_members s G x Hx) as (thx & Hgx & Hmx & Hcx).
       exists thx. split; [|split; assumption].
       rewrite Eother; [exact Hgx|]. intros e. subst x. rewrite Hg in Hgx. inversion Hgx; subst thx.
       rewrite Hm in Hmx. discriminate.
-    + rewrite Eq, Eheld, <- Eheld0. apply (g_nodup s G).
+    + rewrite Eq, Eheld, <- Eheld0. apply (iv_nodup s G).
   - intros u thu Hgu. destruct (Nat.eq_dec u t) as [e|ne].
     + subst u. rewrite Esame in Hgu. inversion Hgu; subst thu. unfold tinv, tloc. sred.
       repeat split; auto.
@@ -374,20 +374,20 @@ Proof.
   assert (EU : gU s' = gU s) by (unfold gU; rewrite Eg; reflexivity).
   assert (EC : gC s' = gC s) by (unfold gC; rewrite Eg; reflexivity).
   assert (Hnotin : ~ In t (sq s ++ fheld s)).
-  { intros Hin. destruct (g_members s G t Hin) as (thx & Hgx & _ & Hcx).
+  { intros Hin. destruct (iv_members s G t Hin) as (thx & Hgx & _ & Hcx).
     rewrite Hg in Hgx. inversion Hgx; subst thx. rewrite Hcb in Hcx. discriminate. }
   split.
   - constructor.
-    + rewrite Pb. apply (g_bits s G).
-    + rewrite Pn, Pb. apply (g_n s G).
-    + rewrite Pm, Pb. apply (g_mask s G).
-    + rewrite Elen, Pb. apply (g_fit s G).
-    + rewrite Ew, Ereg, ED, Pb. apply (g_word s G).
-    + rewrite ED, Pn. apply (g_dec s G).
-    + rewrite Ereg, Epend, Eq, Eheld, EU, lenz_app. pose proof (g_count s G) as Hc.
+    + rewrite Pb. apply (iv_bits s G).
+    + rewrite Pn, Pb. apply (iv_n s G).
+    + rewrite Pm, Pb. apply (iv_mask s G).
+    + rewrite Elen, Pb. apply (iv_fit s G).
+    + rewrite Ew, Ereg, ED, Pb. apply (iv_word s G).
+    + rewrite ED, Pn. apply (iv_dec s G).
+    + rewrite Ereg, Epend, Eq, Eheld, EU, lenz_app. pose proof (iv_count s G) as Hc.
       change (lenz [t]) with 1. lia.
-    + rewrite EF, EU, ED, Pn, Ereg. apply (g_nofinal s G).
-    + intros f Hf. rewrite EF in Hf. destruct (g_final s G f Hf) as (Hd & thf & Hgf & Hph).
+    + rewrite EF, EU, ED, Pn, Ereg. apply (iv_nofinal s G).
+    + intros f Hf. rewrite EF in Hf. destruct (iv_final s G f Hf) as (Hd & thf & Hgf & Hph).
       rewrite ED, Pn. split; [exact Hd|].
       destruct (Nat.eq_dec f t) as [e|ne].
       * subst f. exists (set_cb th CbNone). split; [exact Esame|].
@@ -395,7 +395,7 @@ Proof.
         apply (fphase_ext s); assumption.
       * exists thf. split; [rewrite Eother by exact ne; exact Hgf|].
         apply (fphase_ext s); assumption.
-    + rewrite ED, Einfl, EC. apply (g_budget s G).
+    + rewrite ED, Einfl, EC. apply (iv_budget s G).
     + intros x Hx. rewrite Eq, Eheld in Hx.
       destruct (Nat.eq_dec x t) as [e|ne].
       * subst x. exists (set_cb th CbNone). split; [exact Esame|]. sred. split; [exact Hm | reflexivity].
@@ -403,11 +403,11 @@ Proof.
         { apply in_app_or in Hx. destruct Hx as [Hx|Hx]; [|apply in_or_app; right; exact Hx].
           apply in_app_or in Hx. destruct Hx as [Hx|Hx]; [apply in_or_app; left; exact Hx|].
           cbn in Hx. destruct Hx as [Hx|[]]. congruence. }
-        destruct (g_members s G x Hx') as (thx & Hgx & Hmx & Hcx).
+        destruct (iv_members s G x Hx') as (thx & Hgx & Hmx & Hcx).
         exists thx. split; [rewrite Eother by exact ne; exact Hgx | split; assumption].
     + rewrite Eq, Eheld. apply (Permutation_NoDup (l := t :: sq s ++ fheld s)).
       * rewrite <- app_assoc. cbn [app]. apply Permutation_middle.
-      * constructor; [exact Hnotin | apply (g_nodup s G)].
+      * constructor; [exact Hnotin | apply (iv_nodup s G)].
   - intros u thu Hgu. destruct (Nat.eq_dec u t) as [e|ne].
     + subst u. rewrite Esame in Hgu. inversion Hgu; subst thu. unfold tinv, tloc. sred.
       rewrite Hm. split; [intros Hc; discriminate|]. split; [|split; [auto | exact I]].
@@ -438,8 +438,8 @@ Proof.
   { apply (not_susp_cbnone s t th (T t th Hg)). rewrite Hm. discriminate. }
   assert (HD : gD s < jn s). { rewrite <- (low_is_dec s G), Hw. exact T4. }
   assert (HF : gF s = None) by (apply final_when_below; [assumption | lia]).
-  pose proof (g_dec s G) as Hdec. pose proof (g_n s G) as Hn. pose proof (g_bits s G) as Hb.
-  destruct (g_nofinal s G HF) as (HU0 & _).
+  pose proof (iv_dec s G) as Hdec. pose proof (iv_n s G) as Hn. pose proof (iv_bits s G) as Hb.
+  destruct (iv_nofinal s G HF) as (HU0 & _).
   assert (Hreg : reg th = false).
   { destruct (reg th) eqn:E; [|reflexivity]. destruct (T3 eq_refl) as [a|b]; [rewrite Hm in a; discriminate | lia]. }
   assert (Hp' : waker p' = true /\ p' = KDeq (nreg s) 0 [] /\ 0 < nreg s /\ fin = true \/ p' = Done Dec 0).
@@ -469,13 +469,13 @@ Proof.
   - constructor.
     + rewrite Pb. exact Hb.
     + rewrite Pn, Pb. exact Hn.
-    + rewrite Pm, Pb. apply (g_mask s G).
-    + rewrite Elen, Pb. apply (g_fit s G).
-    + rewrite Ew, <- Hw, (g_word s G), Ereg, ED, Pb.
+    + rewrite Pm, Pb. apply (iv_mask s G).
+    + rewrite Elen, Pb. apply (iv_fit s G).
+    + rewrite Ew, <- Hw, (iv_word s G), Ereg, ED, Pb.
       apply (dec_no_carry _ _ _ (jn s)); try lia.
-      pose proof (nreg_bounds s). pose proof (g_fit s G). lia.
+      pose proof (nreg_bounds s). pose proof (iv_fit s G). lia.
     + rewrite ED, Pn. lia.
-    + rewrite Ereg, Epend, Eq, Eheld, EU. pose proof (g_count s G) as Hc. rewrite Eheld0 in Hc. exact Hc.
+    + rewrite Ereg, Epend, Eq, Eheld, EU. pose proof (iv_count s G) as Hc. rewrite Eheld0 in Hc. exact Hc.
     + rewrite EF, EU, ED, Pn. intros Hnone. destruct fin; [discriminate|].
       split; [exact HU0|]. intros Hd. destruct (Hnf eq_refl) as (a & _). lia.
     + intros f Hff. rewrite EF in Hff. destruct fin; [|rewrite HF in Hff; discriminate].
@@ -485,13 +485,13 @@ Proof.
       destruct Hcase as [(a & b) | (a & b)]; rewrite b; unfold fphase; rewrite Ereg, EU.
       * split; [reflexivity | exact HU0].
       * pose proof (nreg_bounds s). lia.
-    + rewrite ED, Einfl, EC. pose proof (g_budget s G). lia.
+    + rewrite ED, Einfl, EC. pose proof (iv_budget s G). lia.
     + intros x Hx. rewrite Eq, Eheld in Hx. rewrite <- Eheld0 in Hx.
-      destruct (g_members s G x Hx) as (thx & Hgx & Hmx & Hcx).
+      destruct (iv_members s G x Hx) as (thx & Hgx & Hmx & Hcx).
       exists thx. split; [|split; assumption].
       rewrite Eother; [exact Hgx|]. intros e. subst x. rewrite Hg in Hgx. inversion Hgx; subst thx.
       rewrite Hm in Hmx. discriminate.
-    + rewrite Eq, Eheld, <- Eheld0. apply (g_nodup s G).
+    + rewrite Eq, Eheld, <- Eheld0. apply (iv_nodup s G).
   - intros u thu Hgu. destruct (Nat.eq_dec u t) as [e|ne].
     + subst u. rewrite Esame in Hgu. inversion Hgu; subst thu. unfold tinv, tloc. sred.
       split; [intros Hc; rewrite Hcb in Hc; discriminate|].
@@ -520,7 +520,7 @@ Proof.
   unfold tloc in T4. rewrite Hm in T4. destruct T4 as (HF & Hi & Hin).
   assert (Hcb : cb th = CbNone).
   { apply (not_susp_cbnone s t th (T t th Hg)). rewrite Hm. discriminate. }
-  destruct (g_final s G t HF) as (HD & thf & Hgf & Hph).
+  destruct (iv_final s G t HF) as (HD & thf & Hgf & Hph).
   rewrite Hg in Hgf. inversion Hgf; subst thf. rewrite Hm in Hph. cbn [fphase] in Hph. destruct Hph as (Hn & HU).
   assert (Eheld0 : fheld s = acc).
   { unfold fheld. rewrite HF. cbn [fheldl]. unfold get_thread in Hg. rewrite Hg, Hm. reflexivity. }
@@ -548,25 +548,25 @@ Proof.
   { rewrite Hq, Eq, Eheld0, Eheld. cbn [app]. rewrite app_assoc. apply Permutation_cons_append. }
   split.
   - constructor.
-    + rewrite Pb. apply (g_bits s G).
-    + rewrite Pn, Pb. apply (g_n s G).
-    + rewrite Pm, Pb. apply (g_mask s G).
-    + rewrite Elen, Pb. apply (g_fit s G).
-    + rewrite Ew, Ereg, ED, Pb. apply (g_word s G).
-    + rewrite ED, Pn. apply (g_dec s G).
-    + rewrite Ereg, Epend, Eq, Eheld, EU, lenz_app. pose proof (g_count s G) as Hc.
+    + rewrite Pb. apply (iv_bits s G).
+    + rewrite Pn, Pb. apply (iv_n s G).
+    + rewrite Pm, Pb. apply (iv_mask s G).
+    + rewrite Elen, Pb. apply (iv_fit s G).
+    + rewrite Ew, Ereg, ED, Pb. apply (iv_word s G).
+    + rewrite ED, Pn. apply (iv_dec s G).
+    + rewrite Ereg, Epend, Eq, Eheld, EU, lenz_app. pose proof (iv_count s G) as Hc.
       rewrite Hq, Eheld0, lenz_cons in Hc. change (lenz [x]) with 1. lia.
     + intros Hnone. rewrite EF in Hnone. discriminate.
     + intros f Hff. rewrite EF in Hff. inversion Hff; subst f. rewrite ED, Pn. split; [exact HD|].
       exists (set_main th p'). split; [exact Esame|]. sred.
       destruct Hp' as [(_ & e) | (_ & e)]; rewrite e; unfold fphase; rewrite Ereg, EU; split; auto.
-    + rewrite ED, Einfl, EC. apply (g_budget s G).
+    + rewrite ED, Einfl, EC. apply (iv_budget s G).
     + intros y Hy. apply (Permutation_in _ (Permutation_sym Hperm)) in Hy.
-      destruct (g_members s G y Hy) as (thy & Hgy & Hmy & Hcy).
+      destruct (iv_members s G y Hy) as (thy & Hgy & Hmy & Hcy).
       exists thy. split; [|split; assumption].
       rewrite Eother; [exact Hgy|]. intros e. subst y. rewrite Hg in Hgy. inversion Hgy; subst thy.
       rewrite Hm in Hmy. discriminate.
-    + apply (Permutation_NoDup Hperm). apply (g_nodup s G).
+    + apply (Permutation_NoDup Hperm). apply (iv_nodup s G).
   - intros u thu Hgu. destruct (Nat.eq_dec u t) as [e|ne].
     + subst u. rewrite Esame in Hgu. inversion Hgu; subst thu. unfold tinv, tloc. sred.
       split; [intros Hc; rewrite Hcb in Hc; discriminate|].
@@ -602,12 +602,12 @@ Proof.
   { intros e. subst x. rewrite Hg in Hgx. inversion Hgx; subst thx. rewrite Hm in Hmx. discriminate. }
   assert (Hcb : cb th = CbNone).
   { apply (not_susp_cbnone s t th (T t th Hg)). rewrite Hm. discriminate. }
-  destruct (g_final s G t HF) as (HD & thf & Hgf & Hph).
+  destruct (iv_final s G t HF) as (HD & thf & Hgf & Hph).
   rewrite Hg in Hgf. inversion Hgf; subst thf. rewrite Hm in Hph. cbn [fphase] in Hph. destruct Hph as (Hn & HU).
   assert (Eheld0 : fheld s = x :: r).
   { unfold fheld. rewrite HF. cbn [fheldl]. unfold get_thread in Hg. rewrite Hg, Hm. reflexivity. }
   assert (Hxmem : In x (sq s ++ fheld s)). { rewrite Eheld0. apply in_or_app. right. left. reflexivity. }
-  destruct (g_members s G x Hxmem) as (thx0 & Hgx0 & _ & Hcbx).
+  destruct (iv_members s G x Hxmem) as (thx0 & Hgx0 & _ & Hcbx).
   rewrite Hgx in Hgx0. inversion Hgx0; subst thx0.
   assert (Hr : r = [] \/ i + 1 < n).
   { destruct r as [|y r']; [left; reflexivity | right]. rewrite lenz_cons in Hi. pose proof (lenz_nonneg r'). lia. }
@@ -634,17 +634,17 @@ Proof.
   { unfold get_thread. rewrite Et. apply (nth_upd_same _ _ _ th). exact Hg1. }
   assert (Ex : get_thread s' x = Some (set_main thx WRead)).
   { unfold get_thread. rewrite Et. rewrite nth_upd_other by auto. apply (nth_upd_same _ _ _ thx). exact Hgx. }
-  pose proof (g_nodup s G) as Hnd. rewrite Eheld0 in Hnd.
+  pose proof (iv_nodup s G) as Hnd. rewrite Eheld0 in Hnd.
   pose proof (NoDup_remove_1 _ _ _ Hnd) as Hnd1. pose proof (NoDup_remove_2 _ _ _ Hnd) as Hnd2.
   split.
   - constructor.
-    + rewrite Pb. apply (g_bits s G).
-    + rewrite Pn, Pb. apply (g_n s G).
-    + rewrite Pm, Pb. apply (g_mask s G).
-    + rewrite Elen, Pb. apply (g_fit s G).
-    + rewrite Ew, Ereg, ED, Pb. apply (g_word s G).
-    + rewrite ED, Pn. apply (g_dec s G).
-    + rewrite Ereg, Epend, Eq, Eheld, EU. pose proof (g_count s G) as Hc.
+    + rewrite Pb. apply (iv_bits s G).
+    + rewrite Pn, Pb. apply (iv_n s G).
+    + rewrite Pm, Pb. apply (iv_mask s G).
+    + rewrite Elen, Pb. apply (iv_fit s G).
+    + rewrite Ew, Ereg, ED, Pb. apply (iv_word s G).
+    + rewrite ED, Pn. apply (iv_dec s G).
+    + rewrite Ereg, Epend, Eq, Eheld, EU. pose proof (iv_count s G) as Hc.
       rewrite Eheld0, lenz_cons in Hc. lia.
     + intros Hnone. rewrite EF, HF in Hnone. discriminate.
     + intros f Hff. rewrite EF, HF in Hff. inversion Hff; subst f. rewrite ED, Pn. split; [exact HD|].
@@ -652,11 +652,11 @@ Proof.
       destruct Hp' as [(_ & e) | (Hge & e)]; rewrite e; unfold fphase; rewrite Ereg, EU.
       * split; [exact Hn | lia].
       * destruct Hr as [e0|lt]; [|contradiction]. subst r. change (lenz []) with 0 in Hi. lia.
-    + rewrite ED, Einfl, EC. apply (g_budget s G).
+    + rewrite ED, Einfl, EC. apply (iv_budget s G).
     + intros y Hy. rewrite Eq, Eheld in Hy.
       assert (Hy' : In y (sq s ++ fheld s)).
       { rewrite Eheld0. apply in_app_or in Hy. apply in_or_app. destruct Hy; [left | right; right]; assumption. }
-      destruct (g_members s G y Hy') as (thy & Hgy & Hmy & Hcy).
+      destruct (iv_members s G y Hy') as (thy & Hgy & Hmy & Hcy).
       exists thy. split; [|split; assumption].
       rewrite Eother; [exact Hgy | | ].
       * intros e. subst y. rewrite Hg in Hgy. inversion Hgy; subst thy. rewrite Hm in Hmy. discriminate.
@@ -745,7 +745,7 @@ Proof.
       * apply Z.geb_le in E.
         local_step Hm.
         unfold tloc. sred. rewrite (low_is_dec s G) in E.
-        pose proof (g_dec s G). pose proof (g_budget s G).
+        pose proof (iv_dec s G). pose proof (iv_budget s G).
         assert (1 <= ninfl s).
         { unfold ninfl. pose proof (sumf_ge_elem inflz (thr s) t th (fun x => proj1 (inflz_bounds x)) Hg) as Hge.
           unfold inflz at 1 in Hge. rewrite Hm in Hge. cbn [inflp] in Hge. exact Hge. }
